@@ -780,6 +780,12 @@ def r05_10(cx):
         b = cx.body(path)
         why = None
         loops = list(b.loops())
+        if not loops:
+            # built without the memchr-based prefilters (feature perf-literal off): the stub that builds nothing
+            rws = [r for r in summarize(cx.facts, b) if r.end == 'return']
+            stub = bool(rws) and all(is_agg(r.ret, r'Option$', 'None') for r in rws)
+            cx.report('R05.10', b, 'collected-bytes', stub, 'no byte prefilter is built in this configuration (the builder returns None)' if stub else 'no collecting loop, yet a prefilter is built')
+            continue
         if len(loops) != 1:
             cx.bad('R05.10', b, 'collected-bytes', 'expected one collecting loop (found %d)' % len(loops))
             continue
